@@ -20,7 +20,11 @@ def collectNames (j : J) : Tbl :=
   let kws (k : String) : List String := (((j.getD k .null).getArr? "kwargs").getD []).filterMap fun
     | .arr (.str n :: _) => some n
     | _ => none
-  (ps "pos" ++ ps "kwonly" ++ opt "varargs" ++ opt "varkw" ++ kws "c1" ++ kws "c2").eraseDups
+  let stepNames : List String := ((j.getArr? "steps").getD []).flatMap fun st =>
+    ((st.getArr? "upd").getD []).filterMap fun
+      | .arr (.str n :: _) => some n
+      | _ => none
+  (ps "pos" ++ ps "kwonly" ++ opt "varargs" ++ opt "varkw" ++ kws "c1" ++ kws "c2" ++ stepNames).eraseDups
 
 def paramOfJ (t : Tbl) : J → Option Param
   | .arr [.str n, .null] => some ⟨t.idx n, none⟩
@@ -111,6 +115,22 @@ def handle (j : J) : J :=
                | .ok o => reportedToJ t (reportArgs o.sig o.fields o.va)
                | .error _ => .null),
             ("py_c1", specToJ t npo s c1.call)]
+    | some "hist" =>
+      -- construct, then a sequence of rebinds; per step: reported args and what __init__ sees
+      let steps : List KW := ((j.getArr? "steps").getD []).filterMap (fun st => (st.get? "upd").bind (kwOfJ t))
+      match objectInit s c1.call with
+      | .error e => .obj [("init", .str (pyErrName e)), ("py_c1", specToJ t npo s c1.call)]
+      | .ok o0 =>
+        let rec go (o : SymObject) : List KW → List J
+          | [] => []
+          | u :: us =>
+            let o' := objectRebind o u
+            J.obj [("args", reportedToJ t (reportArgs o'.sig o'.fields o'.va)),
+                   ("sees", outcomeToJ t (initOutcome o'))] :: go o' us
+        .obj [("init", .str "ok"), ("py_c1", specToJ t npo s c1.call),
+              ("args", reportedToJ t (reportArgs o0.sig o0.fields o0.va)),
+              ("sees", outcomeToJ t (initOutcome o0)),
+              ("steps", .arr (go o0 steps))]
     | some "functor" =>
       match (j.get? "c2").bind (callOfJ t) with
       | none => bad "c2"
